@@ -36,7 +36,7 @@ class Cached_FG:
                     new_x = np.array(x)
                     new_x[i] += 1e-6
                     f1, _ = self.f_g(new_x)
-                    new_x[i] -= 1e-6
+                    new_x[i] -= 2e-6
                     f2, _ = self.f_g(new_x)
                     self.cached_grad[i] = (f1 - f2) / 2e-6
         return self.grad_scale * f, self.grad_scale * self.cached_grad
@@ -58,9 +58,9 @@ class Cached_FG:
                 if np.isnan(g):
                     new_x = np.array(x)
                     new_x[i] += 1e-6
-                    f1 = self.f_g(new_x)
-                    new_x[i] -= 1e-6
-                    f2 = self.f_g(new_x)
+                    f1, _ = self.f_g(new_x)
+                    new_x[i] -= 2e-6
+                    f2, _ = self.f_g(new_x)
                     self.cached_grad[i] = (f1 - f2) / 2e-6
         # print(self.cached_grad)
         return self.cached_grad
